@@ -124,6 +124,11 @@ const NASTY: &[&str] = &[
     "{a,b}",
     "[a]",
     "'`'",
+    // words the parser knows: an array element or a value that spells one is an ordinary word
+    "do",
+    "!",
+    "{",
+    "[[",
 ];
 
 /// Variable names that are not plain identifiers (none contains `;`, `=`, `{`, `}` or `|`, which the
